@@ -7,7 +7,8 @@
         op: A<name>:<count>:<rf>+...|<srv>+<srv>..   D<name>:<id>   M<name>:<id>:<st>:<term>:<leader>:<ens>:<min>:<max>
      -> <id> <result>;<result>;...   one per op:
         [ok{add:<id>=<ns>,..}{del:<id>,..}{calls:<ns>/<sidx>/<idgen>/<#ns>,..} | panic{calls:..}]{<status>}{pub:<published>}
-   coord <id> <idgen0> <sidx0> <script> <op>;...     same ops plus R<config> (coordinator restart = apply on the stored status);
+   coord <id> <idgen0> <sidx0> <script> <op>;...     same ops plus R<config> (coordinator restart = apply on the stored status),
+        X<config> (ConfigChanged of the live coordinator) and C<config> (a lost attempt of its compare-and-set loop);
         the real selector and the shard controllers run in the implementation, so ensembles, shard status (other than
         Deleting), term, leader and the supplier call log are left out of the result:
         [ok{add}{del} | restart | panic]{<idgen>,<sidx>|<ns>~<rf>~<id>:<D|L>:<min>:<max>,..}{pub:<ns>~<id>:<min>:<max>,..}
@@ -78,7 +79,7 @@ let run_status ?(masked=false) g0 x0 script ops =
   let one o =
     let body = String.sub o 1 (String.length o - 1) in
     let head = match o.[0] with
-    | 'A' | 'R' ->
+    | 'A' | 'R' | 'X' | 'C' ->
       let restart = o.[0] = 'R' in
       let (nss, srvs) = match String.split_on_char '|' body with [a; b] -> (a, b) | _ -> failwith "bad A op" in
       let ncs = if nss = "-" then [] else List.map (fun p -> match String.split_on_char ':' p with
@@ -92,7 +93,9 @@ let run_status ?(masked=false) g0 x0 script ops =
         Printf.sprintf "%s/%s/%s/%s" (string_of_n a) (string_of_n b) (string_of_mz c) (string_of_n d)) (List.rev sup'.M.sup_log)) in
       (match r with
        | None -> if masked then "panic" else "panic{calls:" ^ calls ^ "}"
+       | Some _ when o.[0] = 'C' -> "lost"          (* a lost compare-and-set attempt: nothing stored *)
        | Some ((st', _), _) when restart -> st := st'; "restart"
+       | Some ((st', _), _) when o.[0] = 'X' -> st := st'; "changed"   (* ConfigChanged of the live coordinator *)
        | Some ((st', toadd), todel) ->
          st := st';
          (* the Go map keeps the last name stored for an id *)
